@@ -86,6 +86,9 @@ pub struct HalfPlan {
     pub pause_every: u32,
     /// only start writing once the own reader has finished (request/response server)
     pub write_after_read: bool,
+    /// 0: tokio AsyncWrite::write; 1: Writer::write_from on a Bytes buffer; 2: like 1 and the
+    /// final chunk carries the FIN (write_all_from_fin) instead of a separate shutdown
+    pub write_api: u8,
 }
 
 #[derive(Clone, Debug)]
@@ -141,7 +144,7 @@ pub struct Scenario {
 fn half_json(h: &HalfPlan) -> Value {
     json!({"write_len":h.write_len,"write_chunk":h.write_chunk,"finish": if h.finish==Finish::Shutdown {"shutdown"} else {"drop"},
         "write_stop_at":h.write_stop_at,"max_read":h.max_read,"read_stop_at":h.read_stop_at,"pause_us":h.pause_us,"pause_every":h.pause_every,
-        "write_after_read":h.write_after_read})
+        "write_after_read":h.write_after_read,"write_api":h.write_api})
 }
 
 fn half_from(v: &Value) -> HalfPlan {
@@ -154,6 +157,7 @@ fn half_from(v: &Value) -> HalfPlan {
         read_stop_at: v["read_stop_at"].as_u64(),
         pause_us: v["pause_us"].as_u64().unwrap_or(0),
         pause_every: v["pause_every"].as_u64().unwrap_or(0) as u32,
+        write_api: v["write_api"].as_u64().unwrap_or(0) as u8,
         write_after_read: v["write_after_read"].as_bool().unwrap_or(false),
     }
 }
@@ -241,6 +245,7 @@ fn gen_half(rng: &mut Rng, big_ok: bool, faults_ok: bool) -> HalfPlan {
         pause_us: if rng.chance(1, 3) { rng.range(1, 3000) } else { 0 },
         pause_every: rng.range(1, 20) as u32,
         write_after_read: false,
+        write_api: *rng.pick(&[0u8, 0, 1, 2, 2]),
     };
     if faults_ok && write_len > 0 && rng.chance(1, 10) {
         h.write_stop_at = Some(rng.below(write_len));
@@ -811,18 +816,44 @@ fn err_class(e: &std::io::Error) -> String {
     format!("{:?}", e.kind())
 }
 
-async fn run_writer<W: tokio::io::AsyncWrite + Unpin>(mut w: W, plan: HalfPlan, o: SharedOracle, dir: usize, label: String) {
+async fn run_writer(mut w: s2n_quic_dc::stream::testing::Writer, plan: HalfPlan, o: SharedOracle, dir: usize, label: String) {
     let key = o.lock().unwrap().dirs[dir].key;
     let target = plan.write_stop_at.unwrap_or(plan.write_len).min(plan.write_len);
     let mut pos = 0u64;
     let mut buf = vec![0u8; plan.write_chunk.max(1)];
     let mut n_ops = 0u32;
+    let mut fin_written = false;
+    let mut stalls = 0u32;
     while pos < target {
         let n = (target - pos).min(plan.write_chunk.max(1) as u64) as usize;
         prf_fill(key, pos, &mut buf[..n]);
         o.lock().unwrap().dirs[dir].inflight = n as u64;
         let g = OpGuard::new(&o, format!("{label}:write@{pos}+{n}"));
-        let r = w.write(&buf[..n]).await;
+        let with_fin = plan.write_api == 2 && plan.finish == Finish::Shutdown && pos + n as u64 == plan.write_len;
+        let r = if with_fin {
+            // the FIN travels with this write: the reader may see the end before it returns
+            o.lock().unwrap().dirs[dir].finishing = Some(pos + n as u64);
+            let mut b = bytes::Bytes::copy_from_slice(&buf[..n]);
+            let r = w.write_all_from_fin(&mut b).await;
+            fin_written = r.is_ok();
+            r.map(|_| n - b.len())
+        } else if plan.write_api != 0 {
+            // with a buffer::reader::Storage the bytes taken are what left the buffer; the
+            // returned count is what was flushed, which may include earlier writes
+            let mut b = bytes::Bytes::copy_from_slice(&buf[..n]);
+            let r = w.write_from(&mut b).await;
+            let took = n - b.len();
+            if took == 0 && r.is_ok() {
+                stalls += 1;
+                if stalls < 10_000 {
+                    continue;
+                }
+            }
+            stalls = 0;
+            r.map(|_| took)
+        } else {
+            w.write(&buf[..n]).await
+        };
         drop(g);
         match r {
             Ok(k) => {
@@ -850,9 +881,10 @@ async fn run_writer<W: tokio::io::AsyncWrite + Unpin>(mut w: W, plan: HalfPlan, 
     }
     o.lock().unwrap().dirs[dir].finishing = Some(pos);
     match plan.finish {
+        Finish::Shutdown if fin_written => drop(w),
         Finish::Shutdown => {
             let g = OpGuard::new(&o, format!("{label}:shutdown@{pos}"));
-            let r = w.shutdown().await;
+            let r = AsyncWriteExt::shutdown(&mut w).await;
             drop(g);
             if let Err(e) = r {
                 let mut gl = o.lock().unwrap();
@@ -1103,6 +1135,12 @@ fn judge(sc: &Scenario, o: &Oracle, hanging: Vec<String>, vanish_t0_us: Option<u
         if s.client.finish == Finish::Drop { "d" } else { "s" },
         if s.server.finish == Finish::Drop { "d" } else { "s" },
         if s.client.write_stop_at.is_some() || s.server.write_stop_at.is_some() { "w" } else if s.client.read_stop_at.is_some() || s.server.read_stop_at.is_some() { "r" } else { "-" })).take(2).collect::<Vec<_>>().join(",")));
+    {
+        let mut apis: Vec<u8> = sc.streams.iter().flat_map(|s| [s.client.write_api, s.server.write_api]).collect();
+        apis.sort();
+        apis.dedup();
+        features.push(format!("write_api={}", apis.iter().map(|a| match a { 0 => "async_write", 1 => "write_from", _ => "write_from_fin" }).collect::<Vec<_>>().join("+")));
+    }
     features.push(format!("dropped={}", net.dropped_random + net.dropped_burst + net.dropped_kth > 0));
     features.push(format!("vanish={}", sc.vanish.name()));
     if sc.class == "kth_enum" {
@@ -1734,6 +1772,7 @@ fn kth_enumeration(seed: u64, start: u64, flows: u64, verbose: bool, sum: &mut S
             read_stop_at: None,
             pause_us: 0,
             pause_every: 0,
+            write_api: *rng.pick(&[0u8, 1, 2, 2]),
             write_after_read: false,
         };
         let client = half(&mut rng);
